@@ -71,3 +71,10 @@ claim("C20", "other", "linear-form + congruence reasoning over induction variabl
       "shorter' clause, or that CompareNatural is a total preorder.",
       BASE_NOTE,
       "DESIGN.md section 3, C20")
+claim("C07", "other", "normalisation typing of ring offsets (Norm/Raw) with currency checks, must-pass rotation rule, non-zero divisor facts",
+      "Decides the structural part of wrap-around and growth: every index into the ring buffer and every new head is wrap-normalised with the length of the CURRENT buffer "
+      "(the repository's three wrap idioms are recognised semantically, including their guards), every update of n keeps 0 <= n <= len, replacing the buffer resets head and n, "
+      "the buffer is only extended with head == 0 (branch fact or Rotate(vs, -head) followed by head = 0), every % len(vs) is reached only with n > 0, and Each is stoppable. "
+      "Does NOT decide that the contents equal the reference deque (order, loss, duplication) nor slice.Rotate's own correctness.",
+      BASE_NOTE + " The struct invariant 0<=head<len, 0<=n<=len is assumed at method entry and re-established by the obligations (inductive).",
+      "DESIGN.md section 3, C07")
